@@ -15,6 +15,7 @@ import (
 	"sort"
 	"strings"
 	"testing"
+	"time"
 
 	"github.com/tucats/ego/internal/defs"
 	"github.com/tucats/ego/internal/language/bytecode"
@@ -406,18 +407,55 @@ func c12PartB(t *testing.T) {
 	type prog struct {
 		name, src string
 		test      bool
+		kind      string // generator stream
+	}
+	// every run happens in the worker process (zz_verif_c12_iso_test.go)
+	w := &c12Worker{}
+	defer func() { w.stop(); stats.Add("worker_processes", w.spawned) }()
+	var plainTook time.Duration
+	run := func(p prog, fl c12Flags, cmds string) (c12Result, bool) {
+		// per-run limit: generous against machine load, and scaled by the plain run of the same program
+		// (the worker is also declared hung, much earlier, when it sits idle: see c12Worker.run)
+		limit := 2*c12HangAfter + 1000*plainTook
+		if limit > 20*time.Minute {
+			limit = 20 * time.Minute
+		}
+		if !fl.t && !fl.p && !fl.d {
+			limit = c12HangAfter
+		}
+		res, ok, cerr, took := w.run(c12Req{Src: p.src, T: fl.t, P: fl.p, D: fl.d, C: fl.c, Cmds: cmds, Test: p.test}, limit)
+		if !fl.t && !fl.p && !fl.d {
+			plainTook = took
+		}
+		if !ok && os.Getenv("VERIF_C12_DEBUG") != "" {
+			fmt.Fprintln(os.Stderr, "DOES NOT COMPILE", p.name, cerr)
+		}
+		return res, ok
 	}
 	var progs []prog
 	for i, s := range c12SrcCorpus {
-		progs = append(progs, prog{fmt.Sprintf("fixed-%d", i), s, false})
+		progs = append(progs, prog{fmt.Sprintf("fixed-%d", i), s, false, "fixed"})
+	}
+	for i, e := range c12IsoCorpus {
+		progs = append(progs, prog{fmt.Sprintf("fixed-%s-%d", e.kind, i), e.src, false, e.kind})
 	}
 	for i, n := 0, verifh.N(20, 200); i < n; i++ {
-		progs = append(progs, prog{fmt.Sprintf("gen-%d", i), c12GenSource(r), false})
+		progs = append(progs, prog{fmt.Sprintf("gen-%d", i), c12GenSource(r), false, "gen"})
 	}
 	// its own stream, so that the programs above do not depend on how many panic programs are drawn
 	rp := verifh.Rand(1203)
 	for i, n := 0, verifh.N(12, 150); i < n; i++ {
-		progs = append(progs, prog{fmt.Sprintf("panic-%d", i), c12GenPanicSource(rp), false})
+		progs = append(progs, prog{fmt.Sprintf("panic-%d", i), c12GenPanicSource(rp), false, "panic"})
+	}
+	// values that contain themselves, never printed (own stream)
+	rc := verifh.Rand(1204)
+	for i, n := 0, verifh.N(2, 40); i < n; i++ {
+		progs = append(progs, prog{fmt.Sprintf("cyclic-%d", i), c12GenCyclicSource(rc), false, "cyclic"})
+	}
+	// goroutines, channels, wait groups, mutexes (own stream)
+	rg := verifh.Rand(1205)
+	for i, n := 0, verifh.N(8, 120); i < n; i++ {
+		progs = append(progs, prog{fmt.Sprintf("go-%d", i), c12GenGoSource(rg), false, "go"})
 	}
 	// tests/ corpus: a seed-chosen sample of the repository's own @test files
 	var files []string
@@ -432,30 +470,32 @@ func c12PartB(t *testing.T) {
 	r.Shuffle(len(files), func(i, j int) { files[i], files[j] = files[j], files[i] })
 	for i := 0; i < len(files) && i < verifh.N(5, 40); i++ {
 		if b, err := os.ReadFile(files[i]); err == nil && strings.Contains(string(b), "@test") {
-			progs = append(progs, prog{files[i], string(b), true})
+			progs = append(progs, prog{files[i], string(b), true, "test"})
 		}
 	}
 	seen := map[string]bool{}
+	fatal := map[string]int{}
 	for _, p := range progs {
+		if only := os.Getenv("VERIF_C12_ONLY_KIND"); only != "" && only != p.kind { // debugging aid
+			continue
+		}
 		_ = os.WriteFile(filepath.Join(os.Getenv("VERIF_OUT"), "c12_progress.txt"), []byte(p.name+"\n"+p.src), 0o644)
 		for _, captured := range []bool{true, false} {
 			if p.test && !captured {
 				continue
 			}
-			plain, ok := c12RunSource(p.src, c12Flags{c: captured}, "", p.test)
+			plain, ok := run(p, c12Flags{c: captured}, "")
 			if !ok {
 				stats.Inc("does_not_compile")
-				if os.Getenv("VERIF_C12_DEBUG") != "" {
-					fmt.Fprintln(os.Stderr, "DOES NOT COMPILE", p.name, c12CompileErr)
-				}
+				stats.Inc("does_not_compile_" + p.kind)
 				break
 			}
-			if plain.status == "hang" {
-				// the program does not terminate even without diagnostics: not a C12 matter
-				stats.Inc("plain_hang_skipped")
+			if plain.status == "hang" || plain.status == "crash" {
+				// the program does not terminate / kills the process even without diagnostics: not a C12 matter
+				stats.Inc("plain_" + plain.status + "_skipped")
 				break
 			}
-			again, _ := c12RunSource(p.src, c12Flags{c: captured}, "", p.test)
+			again, _ := run(p, c12Flags{c: captured}, "")
 			if again.out != plain.out || again.errText != plain.errText {
 				stats.Inc("nondeterministic_skipped")
 				break
@@ -469,9 +509,32 @@ func c12PartB(t *testing.T) {
 				if fl.d {
 					cmds = []string{"c", "c", "sc", "sssc"}[r.Intn(4)]
 				}
-				res, _ := c12RunSource(p.src, fl, cmds, p.test)
+				// cost cap on a tree that already fails: after two crashes / hangs of one generator stream in one
+				// mode (each costs a stack overflow or a full time limit) that mode is skipped for the stream
+				if fatal[p.kind+"|"+c12ModeName(fl)] >= 2 {
+					stats.Inc("skipped_after_repeated_crash_or_hang")
+					continue
+				}
+				res, _ := run(p, fl, cmds)
 				stats.Inc("evaluations")
+				stats.Inc("evaluations_" + p.kind)
 				if res.out == plain.out && res.errText == plain.errText {
+					continue
+				}
+				if res.status == "hang" || res.status == "crash" {
+					// the diagnostics mode never returns / kills the process while the plain run ended normally
+					fatal[p.kind+"|"+c12ModeName(fl)]++
+					class := "diag-" + res.status + ":" + c12ModeName(fl)
+					if res.status == "crash" && fl.t && res.errText == "crash:stack-overflow" && c12HasCyclicStore(p.src) {
+						class = "trace-cyclic-value:stack-overflow"
+					}
+					in := p.src
+					if p.test {
+						in = p.name
+					}
+					fails.Write(verifh.Failure{Class: class, What: "Ego program " + p.name + " ends normally when run plainly, but under diagnostics flags (tracing,profiling,debugging,captured)=" + fl.String() + " cmds=" + cmds + " the run gives " + res.errText,
+						Input: in, Got: res.errText, Want: plain.errText + "|" + plain.out})
+					stats.Inc("oracle_failures_" + class)
 					continue
 				}
 				if p.test && fl.t {
@@ -503,7 +566,13 @@ func c12PartB(t *testing.T) {
 		if strings.Contains(p.src, "recover()") && strings.Contains(p.src, "panic(") && !seen[p.src] {
 			stats.Inc("programs_with_panic_and_recover")
 		}
-		if (strings.Contains(p.src, "try {") || strings.Contains(p.src, "recover()") || p.test) && !seen[p.src] {
+		if p.kind == "cyclic" && c12HasCyclicStore(p.src) && !seen[p.src] {
+			stats.Inc("programs_with_self_containing_value")
+		}
+		if p.kind == "go" && strings.Contains(p.src, "go ") && !seen[p.src] {
+			stats.Inc("programs_with_goroutines")
+		}
+		if (strings.Contains(p.src, "try {") || strings.Contains(p.src, "recover()") || p.test || p.kind == "cyclic" || p.kind == "go") && !seen[p.src] {
 			seen[p.src] = true
 			stats.Inc("distinct_nontrivial")
 			stats.Sample(p.name)
